@@ -64,8 +64,10 @@ class DirectoryMatcher:
         """
         if dir_path == "/":
             return self._check_root_match(dir_path, path_str)
-        if path_str.startswith(dir_path):
-            depth = len(dir_path.split("/"))
+        # Match on a directory boundary: "src" covers "src/a.py" but not "srcfoo/a.py"
+        dir_prefix = dir_path.rstrip("/")
+        if path_str.startswith(dir_prefix + "/"):
+            depth = len(dir_prefix.split("/"))
             return True, depth
         return False, -1
 
